@@ -254,3 +254,124 @@ def enclosing_block(root, node):
         if blk.get("k") == "Block" and any(x is node for x in walk(blk)):
             best = blk
     return best
+
+
+# ---------------------------------------------------------------- VIEWREAD
+END_ACCESS = {"pop_front", "pop_back", "front", "back", "front_mut", "back_mut", "first", "last"}
+POS_ACCESS = {"get", "get_mut", "swap_remove_front", "swap_remove_back", "remove"}
+ITER_ACCESS = {"iter", "iter_mut", "into_iter", "drain"}
+
+
+def rule_viewread(crate, file_suffix="numbat/src/list.rs"):
+    """Every read of an element of the shared deque goes through the view window: positional accesses take an
+    index derived from `self.view`, iteration is `.skip(start).take(end - start)` with both derived from the view,
+    and end-relative accesses (pop_front, front, back, …), which ignore the window, do not occur on the shared
+    storage.  (Writes through make_mut are LISTVIEW's.)  Necessary for `head(tail(xs))` & co. to see the same
+    elements whether or not the storage is shared."""
+    from hirlib import callee, place_path
+
+    out = RuleOut("VIEWREAD", "element reads of the shared deque are offset by the view window")
+    n_sites = 0
+    for d, b in crate.hir.items():
+        if not crate.file_of(b).endswith(file_suffix):
+            continue
+        if "::tests::" in d or b.get("impl_self") is None or "NumbatList" not in (b.get("impl_self") or ""):
+            continue
+        self_ids = {p["id"] for p in b["params"] if p.get("k") == "Binding" and p.get("name") == "self"}
+        if not self_ids:
+            continue
+        short = d.split("::")[-1]
+
+        def is_alloc(e):
+            p = place_path(e)
+            return bool(p and p[0] in self_ids and p[2][:1] == ["alloc"])
+
+        def is_view(e):
+            p = place_path(e)
+            return bool(p and p[0] in self_ids and p[2][:1] == ["view"])
+
+        # locals derived from the view / holding the deque
+        view_locals, deque_locals = set(), set()
+        changed = True
+        lets = [n for n in walk(b["body"]) if n.get("k") == "Let" and n.get("init") is not None]
+        matches = [n for n in walk(b["body"]) if n.get("k") == "Match"]
+
+        def mentions_view(e):
+            for x in walk(e):
+                if x.get("k") == "Field" and is_view(x):
+                    return True
+                if x.get("k") == "Path" and x["res"].get("r") == "local" and x["res"]["id"] in view_locals:
+                    return True
+            return False
+
+        while changed:
+            changed = False
+            for n in lets:
+                if mentions_view(n["init"]):
+                    for q in walk(n["pat"]):
+                        if q.get("k") == "Binding" and q["id"] not in view_locals:
+                            view_locals.add(q["id"])
+                            changed = True
+            for m in matches:
+                if mentions_view(m["scrut"]):
+                    for a in m["arms"]:
+                        for q in walk(a["pat"]):
+                            if q.get("k") == "Binding" and q["id"] not in view_locals:
+                                view_locals.add(q["id"])
+                                changed = True
+        # closures `|(start, _end)| start` passed to self.view.map_or(..) are covered by mentions_view on the let init
+        for m in matches:
+            sc = peel(m["scrut"])
+            if sc.get("k") == "Call" and (callee(sc) or "").endswith("Arc::try_unwrap") and sc["args"] and is_alloc(sc["args"][0]):
+                for a in m["arms"]:
+                    for q in walk(a["pat"]):
+                        if q.get("k") == "Binding":
+                            deque_locals.add(q["id"])
+
+        def is_deque(e):
+            e2 = peel_refs(e)
+            if is_alloc(e2):
+                return True
+            lid = local_of(e2)
+            return lid is not None and lid in deque_locals
+
+        idx = 0
+        for n in walk(b["body"]):
+            k = n.get("k")
+            if k == "MethodCall" and is_deque(n["recv"]):
+                name = n["name"]
+                f, l = crate.loc(b, n)
+                key = "%s:%s#%d" % (short, name, idx)
+                if name in END_ACCESS:
+                    n_sites += 1
+                    idx += 1
+                    out.violation(key, f, l, "`%s()` reads an end of the shared deque and ignores the view window: a list that was `tail`ed returns an element that is no longer part of it (and the result depends on whether the storage is shared)" % name)
+                elif name in POS_ACCESS:
+                    n_sites += 1
+                    idx += 1
+                    if n["args"] and mentions_view(n["args"][0]):
+                        out.ok(key, f, l, "index derived from the view start")
+                    else:
+                        out.violation(key, f, l, "`%s(..)` reads the shared deque at an index that is not derived from the view: the window offset is ignored" % name)
+                elif name in ITER_ACCESS:
+                    n_sites += 1
+                    idx += 1
+                    # enclosing skip/take chain
+                    skips = [x for x in walk(b["body"]) if x.get("k") == "MethodCall" and x["name"] == "skip" and any(y is n for y in walk(x["recv"]))]
+                    takes = [x for x in walk(b["body"]) if x.get("k") == "MethodCall" and x["name"] == "take" and any(y is n for y in walk(x["recv"]))]
+                    if skips and takes and mentions_view(skips[0]["args"][0]) and mentions_view(takes[0]["args"][0]):
+                        out.ok(key, f, l, "iteration is windowed by .skip(start).take(end - start) derived from the view")
+                    else:
+                        out.violation(key, f, l, "iteration over the shared deque is not restricted to the view window by skip/take derived from `self.view`")
+            elif k == "Index" and is_deque(n["e"]):
+                n_sites += 1
+                f, l = crate.loc(b, n)
+                key = "%s:index#%d" % (short, idx)
+                idx += 1
+                if mentions_view(n["idx"]):
+                    out.ok(key, f, l, "index derived from the view")
+                else:
+                    out.violation(key, f, l, "the shared deque is indexed without the view offset")
+    out.analysed = {"read_sites": n_sites}
+    out.floor("read_sites", n_sites, 3)
+    return out
